@@ -124,6 +124,26 @@ def gen_stmts(d, lists, scal, p_fold=12):
         if d.chance(p_fold):
             out.append(fold_foreach(d, l, scal))
             continue
+        if d.chance(10):
+            # bodies that need more than a plain copy when the foreach is unrolled: a slice of the element, a unique
+            # among element and scalar, the list's own sum, and a foreach under a top-level if/else or implies
+            k2 = d.randint(0, 3)
+            w_ = l["elem"]["w"]
+            if k2 == 0:
+                hi_ = d.randint(0, w_ - 1)
+                lo_ = d.randint(0, hi_)
+                out.append(["foreach", n, "i", None, [["expr", ["bin", d.choice(["==", "!=", "<="]), ["pse", el(n, ["iv", "i"]), hi_, lo_],
+                                                               L(d.randint(0, (1 << (hi_ - lo_ + 1)) - 1))]]]])
+            elif k2 == 1:
+                out.append(["foreach", n, "i", None, [["unique", [el(n, ["iv", "i"]), ["f", "s0"]]]]])
+            elif k2 == 2:
+                out.append(["foreach", n, "i", None, [["expr", ["bin", d.choice(["<=", "<", "!="]), el(n, ["iv", "i"]), ["sum", n]]]]])
+            else:
+                body1 = [["foreach", n, "i", None, [["expr", ["bin", d.choice(["<", "<=", "!="]), el(n, ["iv", "i"]), L(d.randint(1, emax))]]]]]
+                body2 = [["foreach", n, "i", None, [["expr", ["bin", d.choice([">", ">=", "!="]), el(n, ["iv", "i"]), L(d.randint(0, emax - 1))]]]]]
+                cond = ["bin", d.choice(["==", "<", ">="]), ["f", d.choice(scal)], L(d.randint(0, 4))]
+                out.append(["if", [[cond, body1]], body2 if d.chance(60) else None] if d.chance(70) else ["implies", cond, body1])
+            continue
         r = d.randint(0, 99)
         if r < 14:
             out.append(["foreach", n, None, "it", [["expr", ["bin", d.choice(["<", "<=", "!=", ">"]), ["it", "it"], L(d.randint(0, emax))]]]])
@@ -227,7 +247,11 @@ def shape_of(case):
         if k == "expr":
             return n in sem.fields_of_expr(s[1]) and s[1][0] != "sz" and not _only_size(s[1], n)
         if k == "if":
-            return any(any(refs_elems(b, n) for b in body) for c, body in s[1])
+            return any(any(refs_elems(b, n) for b in body) for c, body in s[1]) or any(refs_elems(b, n) for b in (s[2] or []))
+        if k == "implies":
+            return any(refs_elems(b, n) for b in s[2])
+        if k == "unique":
+            return any(n in sem.fields_of_expr(e_) for e_ in s[1])
         return False
     for n in randsz:
         if any(refs_elems(s, n) for s in stmts):
